@@ -94,6 +94,7 @@ class StoreSim:
         self.step_no = 0
         self.ops_done: list = []
         self.pending_reject: dict = {}   # sid -> info about a rejected add (for close/reopen codes)
+        self.iters: dict = {}            # live iterators: id -> {it, sess, pos, done}
         self.fsfaults = None             # installed by the fault engine
         self._install_clock()
 
@@ -474,6 +475,55 @@ class StoreSim:
             self.fail('iter.length', f'iteration yielded {n} items, model {len(rows)}', sess)
         self.probes['iterate'] += 1
         return n
+
+    # -- iterators that stay alive across other operations (additions in particular)
+    def op_iter_open(self, op):
+        sess = self.sessions.get(op['sess'])
+        if sess is None or op['it'] in self.iters:
+            return None
+        try:
+            it = iter(sess.store)
+        except Exception as e:  # noqa: BLE001
+            self.fail('iter.raised', f'{type(e).__name__}: {e}', sess)
+        self.iters[op['it']] = {'it': it, 'sess': sess, 'pos': 0, 'done': False}
+        return 'ok'
+
+    def op_iter_next(self, op):
+        st = self.iters.get(op['it'])
+        if st is None or st['done'] or st['sess'].sid not in self.sessions:
+            return None
+        sess = st['sess']
+        got = 0
+        for _ in range(op['n']):
+            rows = self._rows(sess)
+            served = self._served_from(sess, st['pos'])
+            try:
+                traj = next(st['it'])
+            except StopIteration:
+                st['done'] = True
+                if st['pos'] != len(rows):
+                    self.fail('iter.length', f'live iterator stopped after {st["pos"]} items, store holds {len(rows)}',
+                              sess, live=True)
+                break
+            except Exception as e:  # noqa: BLE001
+                self.fail('iter.raised', f'{type(e).__name__}: {e}', sess, live=True)
+            if st['pos'] >= len(rows):
+                self.fail('iter.length', f'live iterator yielded item {st["pos"]} but the store holds {len(rows)}',
+                          sess, live=True)
+            try:
+                self._check_read(sess, st['pos'], traj, served, via='iter')
+            except OracleFailure as of:
+                if of.v['code'] == 'get.wrong_item':
+                    of.v['code'] = 'iter.order'
+                of.v['features']['live'] = True
+                raise
+            self._note_read(sess, st['pos'], served)
+            st['pos'] += 1
+            got += 1
+        self.probes['live_iterator_steps'] += got
+        if sess.writable and sess.adds and got:
+            self.probes['live_iterator_after_add'] += 1
+        return got
 
     def op_len(self, op):
         sess = self.sessions.get(op['sess'])
